@@ -29,3 +29,4 @@ def build(u):
     u.emit(AL, 'fn is_identifier_continuation')
     u.emit(AL, 'fn parse_integer_suffix', rules=[LR.str_patterns])
     u.emit(AL, 'fn lex_line', rules=LR.LEX_LINE_RULES)
+    u.emit(AL, 'fn lex', rules=LR.LEX_RULES + [rules.r18_annotate('tokens', 'Vec<LexedToken>'), rules.r18_annotate('offset', 'usize')])
